@@ -13,6 +13,7 @@ INVARIANT OthersUntouched
 INVARIANT KeepSetExact
 INVARIANT KeepOrder
 INVARIANT MapWellFormed
+INVARIANT MapNames
 INVARIANT FullyExpanded
 INVARIANT GenStackDiscipline
 INVARIANT GenDepthBounded
